@@ -406,10 +406,12 @@ func (p *Parser) parseBuffer(buf []byte, last bool) error {
 				p.mode = dotMap
 				continue
 			}
+			p.mode = dotMap
 			for i, b = range buf[off+1:] {
 				if digitMap[b] != numDigit {
 					break
 				}
+				p.mode = fracMap
 				p.num.Frac = p.num.Frac*10 + uint64(b-'0')
 				p.num.Div *= 10.0
 				if BigLimit <= p.num.Div {
@@ -421,7 +423,6 @@ func (p *Parser) parseBuffer(buf []byte, last bool) error {
 			if digitMap[b] == numDigit {
 				off++
 			}
-			p.mode = fracMap
 		case numFrac:
 			p.num.AddFrac(b)
 			p.mode = fracMap
